@@ -41,3 +41,18 @@
   (! (or (and (<= 0 (bdiff X Y n)) (< (bdiff X Y n) n) (not (= (select X (bdiff X Y n)) (select Y (bdiff X Y n)))))
          (= (sha256 X n q) (sha256 Y n q)))
      :pattern ((sha256 X n q) (sha256 Y n q)))))
+; extensionality of windows in skolemised form: two windows of equal length are equal as canonical byte strings
+; unless they differ at the witness position (consequence of the definition of sub and array extensionality)
+(declare-fun subdiff ((Array Int Int) (Array Int Int) Int Int Int) Int)
+(assert (forall ((A (Array Int Int)) (B (Array Int Int)) (o Int) (p Int) (n Int))
+  (! (or (and (<= 0 (subdiff A B o p n)) (< (subdiff A B o p n) n) (not (= (select A (+ o (subdiff A B o p n))) (select B (+ p (subdiff A B o p n))))))
+         (= (sub A o n) (sub B p n)))
+     :pattern ((sub A o n) (sub B p n)))))
+; hexadecimal digits (encoding/hex): value of a digit, lower-case digit of a value
+(define-fun ishexdigit ((c Int)) Bool (or (and (<= 48 c) (<= c 57)) (and (<= 97 c) (<= c 102)) (and (<= 65 c) (<= c 70))))
+(define-fun hexval ((c Int)) Int (ite (and (<= 48 c) (<= c 57)) (- c 48) (ite (and (<= 97 c) (<= c 102)) (- c 87) (ite (and (<= 65 c) (<= c 70)) (- c 55) 0))))
+(define-fun hexchar ((v Int)) Int (ite (< v 10) (+ 48 v) (+ 87 v)))
+; unhex(A, o, n): the n/2 bytes denoted by the n hex digits A[o..o+n), as a canonical byte string
+(declare-fun unhex ((Array Int Int) Int Int) (Array Int Int))
+(assert (forall ((A (Array Int Int)) (o Int) (n Int) (i Int))
+  (! (= (select (unhex A o n) i) (ite (and (<= 0 i) (< (* 2 i) n)) (+ (* 16 (hexval (select A (+ o (* 2 i))))) (hexval (select A (+ o (* 2 i) 1)))) 0)) :pattern ((select (unhex A o n) i)))))
